@@ -223,11 +223,18 @@ def cond_scn(sym, cov, W, cancel=None, native=False, second="notify", eager=Fals
         cov.hit("cond:queued-waiter-cancelled", state.get("issued_at_raise", 0) <= pos)
 
 
-def event_scn(sym, cov, W, cancel=None, eager=False, T=2, J=2):
+def event_scn(sym, cov, W, cancel=None, eager=False, T=2, J=2, adapter=False):
+    """adapter: the Event is instantiated OUTSIDE the event loop (module level / before anyio.run): an EventAdapter that binds to
+    a backend event on first use; it may already be set by then (symbolic)"""
     import anyio
     from anyio import CancelScope
 
     loop = VLoop(eager=eager)
+    ev0 = None
+    if adapter:
+        ev0 = anyio.Event()
+        chk(type(ev0).__name__ == "EventAdapter", "harness-error:expected-an-EventAdapter", type(ev0).__name__)
+        preset = sym.bool("preset")
     st = sym.int("set_t", 0, T)
     sj = sym.int("set_j", 0, J)
     s = [sym.int("s%d" % i, 0, T) for i in range(W)]
@@ -238,14 +245,22 @@ def event_scn(sym, cov, W, cancel=None, eager=False, T=2, J=2):
     viol: list = []
     state: dict = {"set": False}
 
+    if adapter and preset:
+        state["set"] = True
+        ev0.set()
+        if not ev0.is_set():
+            viol.append(("set-event-not-set", "before the loop runs"))
+
     async def main():
-        ev = anyio.Event()
+        ev = ev0 if adapter else anyio.Event()
 
         async def waiter(i, scope):
             with scope:
                 try:
                     await anyio.sleep(s[i])
                     was_set = ev.is_set()
+                    if was_set != state["set"]:
+                        viol.append(("is_set-differs-from-history", {"is_set": was_set, "set_called": state["set"]}))
                     await ev.wait()
                 except BaseException:
                     log[i] = "cancelled"
@@ -299,11 +314,12 @@ def units(tier):
             for native in ((False, True) if cancel is not None else (False,)):
                 us.append({"name": "cond W=%d cancel=%s native=%s" % (W, cancel, native), "fn": cond_scn,
                            "params": {"W": W, "cancel": cancel, "native": native, "T": 2 if W == 2 else 1}, "budget_s": B})
-    us.append({"name": "cond W=3 cancel=0", "fn": cond_scn, "params": {"W": 3, "cancel": 0, "T": 1, "J": 1 if quick else 2}, "budget_s": B})
+    us.append({"name": "cond W=3 cancel=0", "fn": cond_scn, "params": {"W": 3, "cancel": 0, "T": 1, "J": 2}, "budget_s": B})
     us.append({"name": "cond W=3 cancel=1 native", "fn": cond_scn, "params": {"W": 3, "cancel": 1, "native": True, "T": 1, "J": 1 if quick else 2}, "budget_s": B})
     us.append({"name": "cond W=2 notify_all cancel=0", "fn": cond_scn, "params": {"W": 2, "cancel": 0, "second": "all", "T": 1}, "budget_s": B})
     for cancel in (None, 0):
         us.append({"name": "event W=2 cancel=%s" % cancel, "fn": event_scn, "params": {"W": 2, "cancel": cancel}, "budget_s": B})
+        us.append({"name": "event created outside the loop W=2 cancel=%s" % cancel, "fn": event_scn, "params": {"W": 2, "cancel": cancel, "adapter": True, "T": 1}, "budget_s": B})
     if not quick:
         for cancel in (None, 0, 1):
             us.append({"name": "cond W=2 T=3 cancel=%s" % cancel, "fn": cond_scn, "params": {"W": 2, "cancel": cancel, "T": 3, "J": 2}, "budget_s": B})
